@@ -241,12 +241,14 @@ func (rd *HandlingDataManager) initializeStreams() (err error) {
 	if err != nil {
 		return fmt.Errorf("failed to create stream: %w", err)
 	}
-	rd.stream = stream
-	verifhook.Yield("reload.published-before-init")
-	rd.stream.WithHub(rd.lunarHub)
-	if err = rd.stream.Initialize(); err != nil {
+	stream.WithHub(rd.lunarHub)
+	if err = stream.Initialize(); err != nil {
 		return fmt.Errorf("failed to initialize streams: %w", err)
 	}
+	// Publish the new engine only once it is fully initialized: until then (and if
+	// initialization fails) the previous engine keeps serving traffic.
+	verifhook.Yield("reload.published-before-init")
+	rd.stream = stream
 
 	rd.stream.InitializeHubCommunication()
 	if err = config.WaitForProxyHealthcheck(); err != nil {
